@@ -143,6 +143,9 @@ func (w *World) verifyFunc(fn *ssa.Function, c *FuncContract) (rep *FuncReport) 
 	env := &SpecEnv{e: e, cur: st, old: fr.entry, vars: map[string]*Val{}, pkg: funcPkgPath(fn), fr: fr}
 	for _, cl := range c.Requires {
 		e.specAssume(st, cl.E, env)
+		if cl.Free {
+			e.note("free (assumed, NOT checked at call sites) precondition of %s: %s", e.fnName, cl.Src)
+		}
 	}
 	for _, cl := range c.CbInv {
 		e.specAssume(st, cl.E, env)
